@@ -293,6 +293,46 @@ def det_invariance(ctx):
 UNITS["det-invariance"] = det_invariance
 
 
+def normalize_union(ctx):
+    """Mesh.normalize_facets / normalize_elements on a list of index sets: the union WITHOUT multiplicity (an integration domain given as several possibly
+    overlapping tagged sets is integrated once)"""
+    import skfem.mesh.mesh as M
+    for meth in ("normalize_facets", "normalize_elements"):
+        fn = ctx.function(getattr(M.Mesh, meth))
+        for kind in (list, tuple):
+            with sarr.index_context() as c:
+                na, nb, nn = c.size("na", 1), c.size("nb", 1), c.size("n", 1)
+                A = SArr.input("A", (na,), lo=0, hi=nn)
+                B = SArr.input("B", (nb,), lo=0, hi=nn)
+
+                class Mesh:
+                    boundaries = subdomains = None
+                mesh = Mesh()
+                setattr(Mesh, meth, getattr(M.Mesh, meth))
+                with sarr.mode_i([M], extra_globals=dict(ndarray=(np.ndarray, SArr))):
+                    U = getattr(mesh, meth)(kind([A, B]))
+                pre = "select/%s/%s" % (meth, kind.__name__)
+                nu = sarr._t(U.shape[0])
+                i, j = c.skolem("i", 0, nu), c.skolem("j", 0, nu)
+                a, b = c.skolem("a", 0, na.t), c.skolem("b", 0, nb.t)
+                sarr.hint_unique(U, a.t)
+                sarr.hint_unique(U, tm.add(na.t, b.t))
+                ctx.prove(pre + "/no-multiplicity", fn, tm.implies(tm.lt(i.t, j.t), tm.lt(U.get((i.t,)), U.get((j.t,)))), hyps=c.all_hyps(),
+                          clause="the selected indices are strictly increasing: an entity named by several of the listed sets is selected once", replay=dict(kind="integration"))
+                rec = U.unique_of
+                ia = tm.app(rec["ixb"], tm.INT, a.t)
+                ibb = tm.app(rec["ixb"], tm.INT, tm.add(na.t, b.t))
+                ctx.prove(pre + "/contains-all", fn, tm.and_(tm.eq(U.get((ia,)), A.get((a.t,))), tm.eq(U.get((ibb,)), B.get((b.t,))), tm.le(C(0), ia), tm.lt(ia, nu), tm.le(C(0), ibb), tm.lt(ibb, nu)),
+                          hyps=c.all_hyps(), clause="every index of every listed set is selected", replay=dict(kind="integration"))
+                src = tm.app(rec["ixa"], tm.INT, i.t)
+                ctx.prove(pre + "/nothing-else", fn, tm.or_(tm.and_(tm.lt(src, na.t), tm.eq(U.get((i.t,)), A.get((src,)))),
+                                                         tm.and_(tm.le(na.t, src), tm.lt(tm.sub(src, na.t), nb.t), tm.eq(U.get((i.t,)), B.get((tm.sub(src, na.t),))))),
+                          hyps=c.all_hyps(), clause="every selected index stems from one of the listed sets", replay=dict(kind="integration"))
+
+
+UNITS["select/normalize-union"] = normalize_union
+
+
 def standin_integration(ctx):
     import time
     from skv import core
